@@ -75,6 +75,7 @@ type Sim struct {
 	dirtyState bool
 	// exactly-once bookkeeping (C05): outgoing bridge messages per packet origin
 	HashLog  []string // per block: height, apphash, tx results digest (for C19)
+	AckLog   []string // every acknowledgement written, in order (for C19 diagnostics)
 	Verbose  bool
 	ModeB    *ModeB
 	// extension hooks
@@ -154,7 +155,7 @@ func (s *Sim) produceBlock(txs []*PendingTx, dtSec int, opID int) {
 		r := res.TxResults[i]
 		s.Stats.Events += len(r.Events)
 		obs := observeTx(r)
-		hl += fmt.Sprintf(" [%d %s %d ev=%s]", r.Code, r.Codespace, r.GasUsed, eventsDigest(r.Events))
+		hl += fmt.Sprintf(" [code=%d/%s gas=%d ev=%s]", r.Code, r.Codespace, r.GasUsed, eventsDigest(r.Events))
 		m, _ := t.Meta.(*txMeta)
 		if m == nil {
 			m = &txMeta{Kind: "other"}
